@@ -9,4 +9,5 @@ INVARIANT InvTracesOptimal
 INVARIANT InvGlobalComplete
 INVARIANT InvLocalMinimal
 INVARIANT InvModeOrder
+INVARIANT InvFormsDenote
 CHECK_DEADLOCK FALSE
